@@ -15,6 +15,7 @@ Known == 1..Len(s.labels)
 
 CreateTaxon(l) == Step /\ Len(s.labels) < MaxTaxa /\ s' = [s EXCEPT !.labels = Append(@, l)] /\ UNCHANGED cp
 AddTaxon(t) == Step /\ t \in Known /\ Take(OpAddTaxon(s, t))
+AddTaxa2(t, u) == Step /\ t \in Known /\ u \in Known /\ t # u /\ Take(OpAddTaxa(s, <<t, u>>))
 NewTaxon(l) == Step /\ Len(s.labels) < MaxTaxa /\ Take(OpNewTaxon(s, l))
 RequireTaxon(l, c) == Step /\ (Len(s.labels) < MaxTaxa \/ MatchTaxa(s, l, EffCs(s, c)) # <<>>) /\ Take(OpRequireTaxon(s, l, c))
 RemoveTaxon(t) == Step /\ t \in Known /\ Take(OpRemoveTaxon(s, t))
@@ -36,6 +37,7 @@ AllPerms == UNION {Perms(n) : n \in 2..MaxTaxa}
 Next == \/ \E l \in Labels : CreateTaxon(l)
         \/ \E l \in Labels : NewTaxon(l)
         \/ \E t \in 1..MaxTaxa : AddTaxon(t)
+        \/ \E t \in 1..MaxTaxa, u \in 1..MaxTaxa : AddTaxa2(t, u)
         \/ \E t \in 1..MaxTaxa : RemoveTaxon(t)
         \/ \E t \in 1..MaxTaxa : QueryBitmask(t)
         \/ \E l \in Labels, c \in {-1, 0, 1} : RequireTaxon(l, c)
